@@ -139,7 +139,7 @@ class Judge:
         outer = render.get('outer_ns')
         insts = self.model(root, outer)
         chain = {'root': root, 'outer': outer, 'insts': insts, 'tok': {}, 'pmode': pmode, 'store': op.get('store', 'main'),
-                 'registry': registry, 'cfgname': {ci: c['name'] + render.get('name_suffix', '') for ci, c in enumerate(self.world['configs'])}}
+                 'registry': registry, 'cfgname': {ci: _cfgname(c['name'], render) for ci, c in enumerate(self.world['configs'])}}
         if set(tasks) != set(insts):
             self.disc('C01', 'I-tasks', op['i'], 'chain task set differs from the configuration\'s',
                       got=sorted(tasks), expected=sorted(insts))
@@ -609,7 +609,7 @@ class Judge:
         for name, it in insts.items():
             if it.kind in PERSIST_NONE:
                 continue
-            cfgname = self.world['configs'][it.cfg]['name'] + suffix
+            cfgname = _cfgname(self.world['configs'][it.cfg]['name'], op['render'])
             src = self.store.get((op.get('store', 'src'), f'name:{it.slug}:{cfgname}'))
             if src is None or src.state != 'complete':
                 continue
@@ -623,6 +623,14 @@ class Judge:
                 t.tainted = False
                 t.last_run = None
                 t.migrated = True
+
+
+def _cfgname(name, render):
+    """config name as documented: file name without extension (plus '#part' for a part of a multi-config file), or the given name"""
+    sfx = render.get('name_suffix', '')
+    if str(render.get('form', '')).startswith('multi'):
+        return f'all{sfx}#{name}{sfx}'
+    return name + sfx
 
 
 def _has_pset(it):
@@ -640,12 +648,15 @@ def _has_pset(it):
     return False
 
 
+import re
+_WORK_RE = re.compile(r'(_tmp|_error|_old)(\.[A-Za-z0-9]+)?$')
+
+
 def _is_work_path(rel):
     """paths that are work areas / side files, not results: <key>_tmp*, <key>_error, <key>_old, logs, run infos, links"""
     base = rel.rsplit('/', 1)[-1]
     for comp in rel.split('/'):
-        stem = comp.split('.', 1)[0]
-        if stem.endswith('_tmp') or stem.endswith('_error') or stem.endswith('_old'):
+        if _WORK_RE.search(comp):
             return True
     return base.endswith('.log') or base.endswith('.run_info.yaml')
 
@@ -1031,7 +1042,7 @@ class Eval:
                 j.disc('C06', 'I-load-pure', self.op['i'], f'loading {name} modified the store', event=f)
             if f[0] == 'ropen':
                 parts = rel.split('/')
-                hit = any(p.split('.', 1)[0] in own for p in parts)
+                hit = any(p == k_ or p.startswith(k_ + '.') for p in parts for k_ in own)
                 if not hit:
                     j.disc('C04', 'I-load-upstream', self.op['i'], f'loading {name} opened another result ({rel})', event=f)
 
